@@ -95,7 +95,10 @@ type c05Env struct {
 	sign     string // ok, error
 	submit   string // ok, error
 	all      bool   // unblindFromAllRelays
-	relays   []*c05Relay
+	// unhashable: the proposal's execution payload (header) is null, which the client library's decoder
+	// lets through and its hashing code cannot handle: the block has no body root, so nothing may be signed
+	unhashable bool
+	relays     []*c05Relay
 	acct     *hAccount
 
 	proposal  *api.VersionedProposal
@@ -181,6 +184,22 @@ func (e *c05Env) Proposal(_ context.Context, opts *api.ProposalOpts) (*api.Respo
 	e.proposals++
 	e.gotGraf = opts.Graffiti
 	e.proposal = c05Proposal(e.version, e.blinded, c05Slot+e.slotOff)
+	if e.unhashable {
+		switch {
+		case e.proposal.Bellatrix != nil:
+			e.proposal.Bellatrix.Body.ExecutionPayload = nil
+		case e.proposal.BellatrixBlinded != nil:
+			e.proposal.BellatrixBlinded.Body.ExecutionPayloadHeader = nil
+		case e.proposal.Capella != nil:
+			e.proposal.Capella.Body.ExecutionPayload = nil
+		case e.proposal.CapellaBlinded != nil:
+			e.proposal.CapellaBlinded.Body.ExecutionPayloadHeader = nil
+		case e.proposal.Deneb != nil:
+			e.proposal.Deneb.Block.Body.ExecutionPayload = nil
+		case e.proposal.DenebBlinded != nil:
+			e.proposal.DenebBlinded.Body.ExecutionPayloadHeader = nil
+		}
+	}
 	return &api.Response[*api.VersionedProposal]{Data: e.proposal, Metadata: map[string]any{}}, nil
 }
 
@@ -295,6 +314,9 @@ func c05Units(tier string) []hx.Unit {
 				e.graffiti = []string{"ok", "error", "none"}[mc.Choose(3)]
 				e.sign = []string{"ok", "error"}[mc.Choose(2)]
 				e.submit = []string{"ok", "error"}[mc.Choose(2)]
+				if cb.v >= spec.DataVersionBellatrix {
+					e.unhashable = mc.Choose(2) == 1
+				}
 				nrel := 2
 				if cb.blinded && au != "none" && au != "error" {
 					e.all = mc.Choose(2) == 1
@@ -333,10 +355,14 @@ func c05Check(e *c05Env, r *mc.Result) mc.Verdict {
 		rel = append(rel, fmt.Sprintf("%s@%d", x.beh, x.lat/int64(time.Second)))
 	}
 	v := mc.Verdict{}
-	desc := fmt.Sprintf("%s blinded=%v proposal-slot=duty+%d graffiti=%s auction=%s sign=%s submit=%s relays=[%s] all=%v", e.version, e.blinded, e.slotOff, e.graffiti, e.auction, e.sign, e.submit, strings.Join(rel, " "), e.all)
+	ver := e.version.String()
+	if e.unhashable {
+		ver += "(null execution payload)"
+	}
+	desc := fmt.Sprintf("%s blinded=%v proposal-slot=duty+%d graffiti=%s auction=%s sign=%s submit=%s relays=[%s] all=%v", ver, e.blinded, e.slotOff, e.graffiti, e.auction, e.sign, e.submit, strings.Join(rel, " "), e.all)
 	v.Outcome = fmt.Sprintf("blinded=%v signs=%d submitted=%d", e.blinded, len(e.signCalls), len(e.submitted))
 	v.Sample = desc + " -> " + v.Outcome
-	v.Nontrivial = e.blinded || e.slotOff != 0 || e.graffiti != "ok" || e.auction == "error" || e.sign != "ok"
+	v.Nontrivial = e.blinded || e.unhashable || e.slotOff != 0 || e.graffiti != "ok" || e.auction == "error" || e.sign != "ok"
 	fail := func(key, msg string) mc.Verdict {
 		v.Violation = desc + ": " + msg
 		v.Key = "C05/" + key
@@ -371,6 +397,18 @@ func c05Check(e *c05Env, r *mc.Result) mc.Verdict {
 	// the proposal is for the duty slot: it must be signed (graffiti / auction failures degrade, they do not skip)
 	if e.proposals != 1 {
 		return fail("proposal-not-requested", fmt.Sprintf("the proposal was requested %d times", e.proposals))
+	}
+	if e.unhashable {
+		if _, err := c05SafeBodyRoot(e.proposal); err == nil {
+			return fail("harness-malformed-proposal", "internal: the proposal with a null execution payload has a body root")
+		}
+		if len(e.signCalls) != 0 {
+			return fail("signed-block-without-body-root", "a block signature was requested for a proposal whose body cannot be hashed (it has no body root of its own)")
+		}
+		if len(e.submitted) != 0 {
+			return fail("submitted-unsigned", "a block was submitted although the proposal could not be signed")
+		}
+		return v
 	}
 	if _, err := e.proposal.BodyRoot(); err != nil {
 		return fail("harness-malformed-proposal", "internal: the harness proposal has no body root: "+err.Error())
@@ -529,6 +567,15 @@ func c05Check(e *c05Env, r *mc.Result) mc.Verdict {
 	return v
 }
 
+func c05SafeBodyRoot(p *api.VersionedProposal) (r phase0.Root, err error) {
+	defer func() {
+		if x := recover(); x != nil {
+			err = fmt.Errorf("%v", x)
+		}
+	}()
+	return p.BodyRoot()
+}
+
 // panicSite extracts the innermost vouch function from a panic stack.
 func panicSite(p string) string {
 	for _, l := range strings.Split(p, "\n") {
@@ -551,10 +598,10 @@ func init() {
 	hx.Register(&hx.Prop{
 		ID:    "C05",
 		Title: "A proposal signs only the selected block of the duty slot and submits it intact",
-		Rule: "real Prepare + Propose of the block proposer for every block version (phase0..deneb) x blinded (bellatrix+) x proposal slot {duty, duty+1} x graffiti {ok, error, no provider} x auction {no auctioneer, error, no winner, winner with 1 or 2 providers} x signing {ok, error} x submission {ok, error} x unblind-from-all x per-relay unblinding behaviour {full block at 0s/1s, three errors, status 400, empty response, never}; relay goroutines explored with deviation-bounded schedules (quick 1, thorough 2); " +
+		Rule: "real Prepare + Propose of the block proposer for every block version (phase0..deneb) x blinded (bellatrix+) x proposal slot {duty, duty+1} x graffiti {ok, error, no provider} x auction {no auctioneer, error, no winner, winner with 1 or 2 providers} x signing {ok, error} x submission {ok, error} x (bellatrix+) execution payload {present, null: the block cannot be hashed and nothing may be signed} x unblind-from-all x per-relay unblinding behaviour {full block at 0s/1s, three errors, status 400, empty response, never}; relay goroutines explored with deviation-bounded schedules (quick 1, thorough 2); " +
 			"oracle on every signer, relay and submitter call; non-trivial = blinded, other-slot proposal, or a failing graffiti/auction/signing step; distinct = distinct (blinded, signatures, submissions)",
 		Assumptions: []string{
-			"the proposal provider returns well-formed blocks (malformed ones are C16)",
+			"apart from the null execution payload the proposal provider returns well-formed blocks (other malformed ones are C16)",
 			"relays honour request cancellation; the duty context has an 8 s deadline",
 		},
 		Units:         c05Units,
